@@ -16,7 +16,8 @@ pairs).  Observables, as the property names them:
   (e) filter list OBJECTS (entry "nest"): nested mixed structures built through every constructor call shape
       (K(*parts), K([parts]), K((parts)), K(generator), a lone filter list of either kind as the only part, user
       subclasses) and through the `list` methods (+, *, reflected *, *=, append, extend, +=, slicing): classes and parts
-      of the result, len, output, numpoly/denpoly (as coded and with the repair of D22), is_linear, hash, and the
+      of the result, len, output, numpoly/denpoly (the code as repaired for D22; the old shape only as a regression
+      model that names the defect), is_linear, hash, and the
       float-only freq_response against the denoted rational function on the unit circle;
   (f) == / != matrices over pools of objects of every sort (entry "eqm"): filter lists of both kinds and of user
       subclasses, plain lists, tuples, ZFilters, type-casted filters, LinearFilter objects, numbers, functions, in
@@ -24,7 +25,13 @@ pairs).  Observables, as the property names them:
   (g) operand kinds / spellings of the dunders: scalars written as int / float / Fraction / bool on either side,
       exponents written as int / bool / float / Fraction / complex, a LinearFilter that is not a ZFilter as right
       operand, a ZFilter handed to a reflected dunder, ZFilter(filter) / ZFilter(filter, filter) /
-      ZFilter(filter, number) type casts; linearize() on fractional delays (entry "frac").
+      ZFilter(filter, number) type casts; linearize() on fractional delays (entry "frac");
+  (h) histories of ONE mutable filter list (entry "hist"): reads of numpoly/denpoly, numlist/denlist and calls
+      interleaved with obj[i] = g (also negative i), obj[:] = [...], append, extend — the replacement mostly a filter
+      with the SAME powers and other coefficients (equal LinearFilter.__hash__): every read must be that of the CURRENT
+      parts (theorem hist_reads_current; regression model of a sum cached under hash(tuple(self)));
+  (i) f(g) against the closed form for monomials gain*z**-delay with non-unit gains (theorem subst_monomial) and
+      against exact evaluation f(g)(z0) == f(g(z0)) at rational points, for monomial and general g (entry "substpt").
 """
 import json
 import operator
@@ -48,7 +55,11 @@ RULE = ("random expression trees (depth<=3 quick / <=4 thorough) over + - * / **
         "callables, filter lists), constructor shapes star/list/tuple/generator, list methods add/mul/rmul/imul/append/"
         "extend/iadd/slice incl. failing ones (tuple / ZFilter / number operands); ==/!= matrices over pools of 6..10 "
         "objects drawn from 41 templates; scalars spelled int/float/Fraction/bool, exponents spelled "
-        "int/bool/float/Fraction/complex, foreign-domain operands, type casts; fractional (dyadic) delays for linearize")
+        "int/bool/float/Fraction/complex, foreign-domain operands, type casts; fractional (dyadic) delays for linearize; "
+        "histories of one filter list (1..3 parts, 1..3 in-place mutations set/setall/append/extend, 75% of the replacements "
+        "with the same powers and other coefficients, a read before and after every mutation); f(g) with g = gain*z**-d "
+        "(gains 2, 1/2, 1/3, -2, 3, -1/2, 3/2, +-1; d in -2..3), monomial dictionaries and general small g, evaluated at "
+        "3 of 7 rational points")
 TRUSTED = [
     "hand-written Lean model ALV/Model/C05.lean of ZFilter / CascadeFilter / ParallelFilter arithmetic on top of "
     "the C07 Poly model and the C04 filter loop (modelled, not verified: Python's Fraction arithmetic as a field, "
@@ -68,16 +79,16 @@ ASSUMPTIONS = [
     "exact regime: Fraction coefficients, Poly zero=Fraction(0) on the leaves, Fraction signals, zero=Fraction(0); "
     "where the impl itself injects binary floats (Fraction coefficients formatted as 'p/q' into the exec'd filter "
     "loop, int ** negative int) results are compared within 1e-9 relative to the largest sample",
-    "constant coefficients and integer powers only (Stream coefficients: C06; linearize is modelled and observed "
-    "on integer delays only, where it must be the identity; its float interpolation of fractional delays is "
-    "outside the model)",
+    "constant coefficients (Stream coefficients: C06); fractional powers only in linearize (dyadic, so that the float "
+    "weights are exact)",
     "signal laws (law vectors) are compared in the exact regime only (integer coefficients keep the impl's exec'd "
     "loop exact on Fraction samples); outputs of single trees in the float regime are compared within "
     "1e-10 * (sum |impulse response of 1/den|) relative to the largest sample",
     "signal laws are stated for causal filters; a non-causal composite raises ValueError in the impl and in the model",
     "outside the object model: coefficient lists / dicts as parts of a filter list, callables with memory, Stream "
     "coefficients, complex scalars (the model's instance in the driver is Rat), <, <=, >, >= on filter lists, poles / "
-    "zeros / plot (numpy), non-dyadic fractional delays (float rounding)",
+    "zeros / plot (numpy), non-dyadic fractional delays (float rounding), IndexError of obj[i] = g out of range, "
+    "del / pop / insert / sort on a filter list, freq_response within a history (float)",
 ]
 MANIFEST = {
     "technique": "Lean 4 proof (ZFilter model interpreted into the fraction field of Mathlib's Laurent polynomial "
@@ -87,10 +98,10 @@ MANIFEST = {
                  "inductive FL/FLs with joint induction: call = composition/sum, numpoly/denpoly = one causal filter "
                  "denoting the product/sum at any depth), ==/!= matrices over mixed pools, operand spellings and "
                  "fractional-delay linearisation, in the exact Fraction regime",
-    "note": "60 theorems, no pending statement; D2 (__ne__ is `num != and den !=`) and D12 (ParallelFilter.denpoly "
+    "note": "78 theorems, no pending statement; D2 (__ne__ is `num != and den !=`) and D12 (ParallelFilter.denpoly "
             "is the product while numpoly comes from the shortcut sum) are repaired in /repo; D22 (ParallelFilter.numpoly/"
             "denpoly run reduce(operator.add, self) on the raw elements: filter lists are concatenated, numbers stay "
-            "numbers) is recorded as known with proposed_fixes/D22-parallel-polys-of-lists.diff; each is stated in "
+            "numbers) is repaired in /repo (04c3c25) and the model follows the repaired code; each is stated in "
             "Lean as theorems about the repaired shape plus a refutation of the shape as coded; filter lists are "
             "modelled as objects (nested_call, nested_structure_denotes, constructor_rule, concat_denotes, "
             "obj_eq_ne_exclusive, obj_eq_sound, obj_eq_hash) and tied through constructor call shapes, list methods "
@@ -594,6 +605,96 @@ def _gen_frac(rng):
     return {"entry": "frac", "via": rng.choice(["dict", "dict", "fraction-keys"]), "num": num, "den": den}
 
 
+# ----------------------------------------------------------------------------
+# histories of one mutable filter list (entry "hist") and substitution against evaluation at points (entry "substpt")
+# ----------------------------------------------------------------------------
+def _hist_leaf(rng, pool):
+    """a causal ZFilter given as normalised dictionaries (the constructor keeps the powers)"""
+    den = [[0, enc(rng.choice(_units(pool)))]] + [[k, enc(rng.choice([c for c in pool if c != 0]))]
+                                                  for k in sorted(rng.sample([1, 2, 3], rng.choice([0, 1, 1, 2])))]
+    num = [[k, enc(rng.choice([c for c in pool if c != 0]))] for k in sorted(rng.sample([0, 1, 2, 3], rng.choice([1, 2, 2, 3])))]
+    if rng.random() < 0.08:
+        num = [[-1, enc(rng.choice([c for c in pool if c != 0]))]] + num       # non-causal: numlist / call raise ValueError
+    return ["zf", ["f", num, den]]
+
+
+def _same_powers(rng, leaf, pool):
+    """another filter with the SAME powers in both polynomials and other coefficients (LinearFilter.__hash__ is the
+    same: it hashes only the powers)"""
+    t = leaf[1]
+    nz = [c for c in pool if c != 0]
+    for _ in range(10):
+        num = [[k, enc(rng.choice(nz))] for k, _ in t[1]]
+        den = [[k, enc(rng.choice(_units(pool)) if k == 0 else rng.choice(nz))] for k, _ in t[2]]
+        if num != t[1] or den != t[2]:
+            return ["zf", ["f", num, den]]
+    return ["zf", ["f", [[k, enc(-dec(v))] for k, v in t[1]], t[2]]]
+
+
+def _hist_part(rng, pool, depth=1):
+    r = rng.random()
+    if r < 0.08:
+        return ["n", enc(rng.choice([F(1), F(2), F(-1), F(3)]))]
+    if r < 0.2 and depth > 0:
+        return ["new", rng.random() < 0.5, 0, "star", [_hist_part(rng, pool, 0) for _ in range(rng.choice([1, 2]))]]
+    if r < 0.23:
+        return ["fn", rng.randint(0, 3)]
+    return _hist_leaf(rng, pool)
+
+
+def _gen_hist(rng):
+    pool = rng.choice([INTS, INTS, DYADIC])
+    par = rng.random() < 0.6
+    parts = [_hist_part(rng, pool) for _ in range(rng.choice([1, 2, 2, 3]))]
+    obj = ["new", par, rng.choice([0, 0, 0, 1]), "star", parts]
+    cur = list(parts)
+    evs = []
+    read = lambda: rng.choice([["polys"], ["polys"], ["lists"], ["call", _signal(rng, rng.choice([1, 3, 4]))]])
+    evs.append(read())
+    for _ in range(rng.choice([1, 2, 2, 3])):
+        r = rng.random()
+        if r < 0.55 and cur:
+            i = rng.randrange(len(cur))
+            g = _same_powers(rng, cur[i], pool) if cur[i][0] == "zf" and rng.random() < 0.75 else _hist_part(rng, pool)
+            evs.append(["set", i if rng.random() < 0.6 else i - len(cur), g])
+            cur[i] = g
+        elif r < 0.75:
+            cur = [(_same_powers(rng, x, pool) if x[0] == "zf" and rng.random() < 0.6 else _hist_part(rng, pool)) for x in cur] \
+                if rng.random() < 0.6 and cur else [_hist_part(rng, pool) for _ in range(rng.choice([1, 2]))]
+            evs.append(["setall", list(cur)])
+        elif r < 0.9:
+            g = _hist_part(rng, pool)
+            evs.append(["append", g])
+            cur.append(g)
+        else:
+            gs = [_hist_part(rng, pool) for _ in range(rng.choice([1, 2]))]
+            evs.append(["extend", gs])
+            cur.extend(gs)
+        evs.append(read())
+        if rng.random() < 0.5:
+            evs.append(read())
+    return {"entry": "hist", "obj": obj, "evs": evs}
+
+
+GAINS = [F(2), F(1, 2), F(1, 3), F(-2), F(3), F(-1, 2), F(3, 2), F(1), F(-1)]
+POINTS = [F(2), F(-1), F(1, 2), F(3), F(-3, 2), F(1, 3), F(5, 2)]
+
+
+def _gen_substpt(rng):
+    pool = rng.choice([COEFFS, INTS, DYADIC])
+    f = _small(rng, pool) if rng.random() < 0.7 else _leaf(rng, causal=True, pool=pool)
+    r = rng.random()
+    if r < 0.6:
+        # a monomial gain * z**-delay with a non-unit gain, spelled as the user writes it
+        c, d = rng.choice(GAINS), rng.choice([-2, -1, -1, 1, 1, 2, 3])
+        g = ["muls", ["pow", ["z"], -d], enc(c), "fraction"] if rng.random() < 0.5 else ["rmuls", enc(c), ["pow", ["z"], -d], "fraction"]
+    elif r < 0.75:
+        g = _mono(rng, pool)
+    else:
+        g = _small(rng, pool)
+    return {"entry": "substpt", "f": f, "g": g, "pts": [enc(z) for z in rng.sample(POINTS, 3)]}
+
+
 def _fixed_objs():
     f = ["zf", ["fl", [1, "1/2"], [1]]]
     g = ["zf", ["fl", [2, 0, -1], [1, "-1/4"]]]
@@ -736,6 +837,10 @@ def generate(rng, tier, scale=1):
         cases.append(_gen_eqm(rng))
     for i in range(n_frac):
         cases.append(_gen_frac(rng))
+    for i in range((260 if quick else 5000) * scale):
+        cases.append(_gen_hist(rng))
+    for i in range((260 if quick else 5000) * scale):
+        cases.append(_gen_substpt(rng))
     return cases
 
 
@@ -859,6 +964,10 @@ def request(c):
         r["fs"] = [_strip(t) for t in r["fs"]]
     if "pool" in r:
         r["pool"] = [_strip(t) for t in r["pool"]]
+    if "evs" in r:
+        r["evs"] = [[ev[0]] + [(_strip(x) if isinstance(x, list) and x and isinstance(x[0], str) else
+                                ([_strip(y) for y in x] if ev[0] in ("setall", "extend") else x)) for x in ev[1:]]
+                    for ev in r["evs"]]
     if r.get("entry") == "frac" and r.get("via") == "zpow":
         r["num"] = [[enc(-dec(r["e"])), 1]]          # z ** e : the numerator {-e: 1}
     return r
@@ -1072,6 +1181,61 @@ def _pair(f):
     return terms_to_dict(_terms(f.numpoly)), terms_to_dict(_terms(f.denpoly))
 
 
+def _impl_hist(c):
+    o = _build_obj(c["obj"])
+    obs = []
+
+    def poly(name):
+        try:
+            q = getattr(o, name)
+            return {"terms": _terms(q), "float": _has_float(q)}
+        except Exception as ex:
+            return {"err": err_kind(ex)}
+
+    def lst(name):
+        try:
+            return {"vals": [enc(v) for v in getattr(o, name)]}
+        except Exception as ex:
+            return {"err": err_kind(ex)}
+    for ev in c["evs"]:
+        k = ev[0]
+        if k == "set":
+            o[ev[1]] = _build_obj(ev[2])
+        elif k == "setall":
+            o[:] = [_build_obj(x) for x in ev[1]]
+        elif k == "append":
+            o.append(_build_obj(ev[1]))
+        elif k == "extend":
+            o.extend([_build_obj(x) for x in ev[1]])
+        elif k == "polys":
+            obs.append({"numpoly": poly("numpoly"), "denpoly": poly("denpoly")})
+        elif k == "lists":
+            obs.append({"numlist": lst("numlist"), "denlist": lst("denlist")})
+        elif k == "call":
+            obs.append({"out": _out(o, ev[1])})
+        else:
+            raise ValueError("bad event %r" % (k,))
+    return {"obs": obs, "shape": _shape(o)}
+
+
+def _peval(terms, z0):
+    return sum((dec(v) * z0 ** (-k) for k, v in terms), F(0))
+
+
+def _impl_substpt(c):
+    f, g = _build(c["f"]), _build(c["g"])
+    h = f(g)
+    num, den = _terms(h.numpoly), _terms(h.denpoly)
+    if _has_float(h.numpoly, h.denpoly):
+        return {"num": num, "den": den, "float": True, "vals": []}
+    vals = []
+    for z in c["pts"]:
+        z0 = dec(z)
+        d = _peval(den, z0)
+        vals.append(None if d == 0 else enc(_peval(num, z0) / d))
+    return {"num": num, "den": den, "float": False, "vals": vals}
+
+
 def _laws(c):
     from audiolazy import ZFilter, z, CascadeFilter, ParallelFilter
     f, g, h = _build(c["f"]), _build(c["g"]), _build(c["h"])
@@ -1219,6 +1383,16 @@ def impl(c):
     if e == "frac":
         try:
             return _impl_frac(c)
+        except Exception as ex:
+            return {"err": err_kind(ex)}
+    if e == "hist":
+        try:
+            return _impl_hist(c)
+        except Exception as ex:
+            return {"err": err_kind(ex)}
+    if e == "substpt":
+        try:
+            return _impl_substpt(c)
         except Exception as ex:
             return {"err": err_kind(ex)}
     raise ValueError("unknown entry " + e)
@@ -1394,7 +1568,93 @@ def compare(c, io, drv):
         return _cmp_eqm(c, io, m)
     if e == "frac":
         return _cmp_frac(c, io, m, s)
+    if e == "hist":
+        return _cmp_hist(c, io, m if m is not None else {"err": drv.get("err")})
+    if e == "substpt":
+        return _cmp_substpt(c, io, drv)
     return [("model", "unknown entry")]
+
+
+def _cmp_hist(c, io, m):
+    if "err" in io:
+        return [("model", "history: impl raised %s, model gives %s" % (io["err"], json.dumps(m)[:160]))]
+    if "err" in m:
+        return [("model", "history: model predicts %s" % m["err"])]
+    out = []
+    reads = [ev for ev in c["evs"] if ev[0] in ("polys", "lists", "call")]
+    cached = m.get("regress_cached")
+    pi = 0
+    for n, (ev, a, b) in enumerate(zip(reads, io["obs"], m["obs"])):
+        where = "read #%d (%s) after %s" % (n, ev[0], json.dumps([x[0] for x in c["evs"]])[:80])
+        if ev[0] == "polys":
+            flt = any(q.get("float") for q in (a["numpoly"], a["denpoly"]))
+            if not _polys_match(a, b["polys"], 1e-9 if flt else 0):
+                stale = cached is not None and pi < len(cached) and _polys_match(a, cached[pi], 1e-9 if flt else 0)
+                out.append(("model", "%s: numpoly/denpoly are not those of the CURRENT parts: impl=%s / %s model=%s%s" % (
+                    where, json.dumps(a["numpoly"])[:100], json.dumps(a["denpoly"])[:100], json.dumps(b["polys"])[:140],
+                    " (the impl agrees with the regression model: a sum cached under hash(tuple(self)))" if stale else "")))
+            pi += 1
+        elif ev[0] == "lists":
+            for name in ("numlist", "denlist"):
+                x, y = a[name], b[name]
+                if "err" in x or (isinstance(y, dict) and "err" in y):
+                    if not (isinstance(y, dict) and x.get("err") == y.get("err")):
+                        out.append(("model", "%s: %s impl=%s model=%s" % (where, name, json.dumps(x)[:100], json.dumps(y)[:100])))
+                elif not _lists_same(x["vals"], y):
+                    out.append(("model", "%s: %s is not that of the CURRENT parts: impl=%s model=%s" % (
+                        where, name, json.dumps(x["vals"])[:100], json.dumps(y)[:100])))
+        else:
+            d = _cmp_out(a["out"], b["out"], 0, 1.0)
+            if d:
+                out.append(("model", "%s: call: %s" % (where, d)))
+    if len(io["obs"]) != len(m["obs"]):
+        out.append(("model", "history: %d reads in the impl, %d in the model" % (len(io["obs"]), len(m["obs"]))))
+    return out
+
+
+def _lists_same(a, b):
+    if len(a) != len(b):
+        return False
+    for x, y in zip(a, b):
+        x, y = dec(x), dec(y)
+        if isinstance(x, float) or isinstance(y, float):
+            if abs(float(x) - float(y)) > 1e-9 * (1 + abs(float(y))):
+                return False
+        elif x != y:
+            return False
+    return True
+
+
+def _cmp_substpt(c, io, drv):
+    m, s = drv.get("model"), drv.get("spec")
+    if "err" in drv and m is None:
+        m = {"err": drv["err"]}
+    if "err" in io:
+        if not (isinstance(m, dict) and m.get("err") == io["err"]):
+            return [("model", "f(g): impl raised %s, model gives %s" % (io["err"], json.dumps(m)[:160]))]
+        return []
+    if m is None or "err" in m:
+        return [("model", "f(g): model predicts %s, impl returned %s / %s" % (json.dumps(m), io["num"], io["den"]))]
+    out = []
+    tol = 1e-9 if io["float"] else 0
+    ni, di = terms_to_dict(io["num"]), terms_to_dict(io["den"])
+    if not cross_equal(ni, di, terms_to_dict(m["num"]), terms_to_dict(m["den"]), tol):
+        out.append(("model", "f(g): impl=%s / %s model=%s / %s" % (io["num"], io["den"], m["num"], m["den"])))
+    if s and s.get("mono") is not None:
+        if not cross_equal(ni, di, terms_to_dict(s["mono"]["num"]), terms_to_dict(s["mono"]["den"]), tol):
+            out.append(("spec", "f(gain*z**-delay) is not the closed form (coefficient of z^-k times gain^-k at z^(delay*k)): "
+                                "impl=%s / %s closed form=%s / %s" % (io["num"], io["den"], s["mono"]["num"], s["mono"]["den"])))
+        if m.get("mono_equiv") is False:
+            out.append(("model", "the model's f(g) is not the closed form"))
+    if s and not io["float"]:
+        for z, got, mv, want in zip(c["pts"], io["vals"], m["vals"], s["comp"]):
+            if got is not None and want is not None and dec(got) != dec(want):
+                out.append(("spec", "f(g)(%s) = %s but f(g(%s)) = %s" % (z, got, z, want)))
+                break
+            if got is not None and mv is not None and dec(got) != dec(mv):
+                out.append(("model", "f(g)(%s): impl=%s model=%s" % (z, got, mv)))
+                break
+    return out
 
 
 def _polys_match(io, shape, tol):
@@ -1443,12 +1703,14 @@ def _cmp_nest(c, io, m):
             out.append(("spec", "the output is not the composition / sum of the parts' outputs: " + d))
     flt = any(p.get("float") for p in (io["numpoly"], io["denpoly"]))
     tol = 1e-9 if flt else 0
-    # two code shapes are accepted: as coded (reduce(operator.add, self) on the raw elements) and the repair of D22
-    if not (_polys_match(io, m["polys_coded"], tol) or _polys_match(io, m["polys_fixed"], tol)) \
-            and not _garbage_possible(c["obj"]):
-        out.append(("model", "numpoly/denpoly: impl=%s / %s model(as coded)=%s model(repaired)=%s" % (
-            json.dumps(io["numpoly"])[:120], json.dumps(io["denpoly"])[:120], json.dumps(m["polys_coded"])[:160],
-            json.dumps(m["polys_fixed"])[:160])))
+    # the model follows the code as it stands (D22 repaired in /repo 04c3c25: `_sum_filter` adds the parts as filters,
+    # `FL.polys`); the old shape (`FL.polysC`: reduce(operator.add, self) on the raw elements) is only kept as a
+    # regression model that names the defect when the code falls back to it
+    if not _polys_match(io, m["polys_fixed"], tol):
+        back = _polys_match(io, m["polys_coded"], tol) or _garbage_possible(c["obj"])
+        out.append(("model", "numpoly/denpoly: impl=%s / %s model=%s%s" % (
+            json.dumps(io["numpoly"])[:120], json.dumps(io["denpoly"])[:120], json.dumps(m["polys_fixed"])[:160],
+            " (the impl agrees with the regression model of D22 %s)" % json.dumps(m["polys_coded"])[:120] if back else "")))
     sp = m.get("spec")
     if sp is not None and "err" not in m["polys_fixed"]:
         kind = "parallel" if c["obj"][0] == "new" and c["obj"][1] else "filter list"
@@ -1560,6 +1822,23 @@ def _depth(t):
 def tally(eng, c, io):
     e = c["entry"]
     eng.count("entry", e)
+    if e == "hist":
+        eng.count("hist_kind", "parallel" if c["obj"][1] else "cascade")
+        for ev in c["evs"]:
+            eng.count("hist_event", ev[0])
+        if "err" in io:
+            eng.count("hist_result", "raises " + io["err"])
+        else:
+            for o in io["obs"]:
+                for k, v in o.items():
+                    eng.count("hist_read", k + (": " + v["err"] if isinstance(v, dict) and "err" in v else ""))
+        return
+    if e == "substpt":
+        g = c["g"]
+        eng.count("substpt_arg", "gain*z**-d (non-unit gain)" if g[0] in ("muls", "rmuls") and dec(g[2] if g[0] == "muls" else g[1]) not in (1, -1)
+                  else ("gain*z**-d (unit gain)" if g[0] in ("muls", "rmuls") else ("monomial dict" if len(g[1]) == 1 and len(g[2]) == 1 else "general")))
+        eng.count("substpt_result", ("raises " + io["err"]) if "err" in io else ("float" if io["float"] else "exact"))
+        return
     if e == "tree":
         t = c["tree"]
         eng.count("top_op", t[0])
@@ -1804,6 +2083,23 @@ def shrink(c):
 
 def _shrink(c):
     e = c["entry"]
+    if e == "hist":
+        evs = c["evs"]
+        if len(evs) > 1:
+            yield dict(c, evs=evs[:-1])
+        for i, ev in enumerate(evs):
+            if ev[0] in ("polys", "lists", "call") and len(evs) > 1:
+                yield dict(c, evs=evs[:i] + evs[i + 1:])
+        return
+    if e == "substpt":
+        for name in ("f", "g"):
+            for i, t in enumerate(_shrink_tree(c[name])):
+                if i > 40:
+                    break
+                yield dict(c, **{name: t})
+        if len(c["pts"]) > 1:
+            yield dict(c, pts=c["pts"][:1])
+        return
     if e == "tree":
         for i, t in enumerate(_shrink_tree(c["tree"])):
             if i > 150:
@@ -1906,6 +2202,10 @@ def neighbours(c):
 def classify(c, io, drv):
     e = c["entry"]
     m = drv.get("model") or {}
+    if e == "hist":
+        return "hist:" + ("raises:" + io["err"] if "err" in io else "a read after an in-place replacement")
+    if e == "substpt":
+        return "substpt:" + ("raises:" + io["err"] if "err" in io else "f(g)")
     if e == "eq":
         if "eq" in io and io["eq"] == io["ne"]:
             if not io["eq"] and (io["num_equal"] != io["den_equal"]):
